@@ -6,6 +6,7 @@ single-version one" is the refinement itself: every read theorem (C03, C04, C09,
 stated over `abs` and holds whatever the versions of the segments are.
 -/
 import Klev.Proofs.Reach
+import Klev.Proofs.Witness
 namespace Klev.C17
 
 /-- Package-level Migrate to either version while closed, and reopening with any version
@@ -47,6 +48,39 @@ theorem rewrite_version (p : Params) (s : Seg) (offs : List Int) (mv : Ver) :
     (rewrittenSeg p (rewrite p s offs mv mv)).ver = mv := rfl
 
 end Klev.C17
+
+/-! ### Non-vacuity: the theorems at the witness log `Witness.wL` (four V2 segments;
+`Klev/Proofs/Witness.lean`) -/
+section NonVacuity
+open Klev Klev.Witness
+
+-- package-level Migrate to V1 while closed (index file of segment 0 removed, Recover run), reopened
+-- with the original options; and a reopen with EagerVersionMigrate / NewSegmentsVersion = V1
+example := Klev.C17.migrate_keeps_content wL wL_inv [0] .v1 true oo
+example := Klev.C17.migrate_keeps_content wL wL_inv [] .v2 false
+  ⟨⟨false, ⟨true, true⟩, false, 60, Ver.v1, false⟩, false, false, true⟩
+example := Klev.C17.rewrite_keeps_content wL wL_inv [4, 5]
+-- Delete-by-rewrite under KeepRewriteVersion with NewSegmentsVersion = V1, on a mixed-version log
+example := Klev.C17.rewrite_keeps_content
+  (runOps wL [.reopen [] none false ⟨⟨false, ⟨true, true⟩, false, 60, Ver.v1, true⟩, false, false, false⟩,
+    .publish [(60, [9], [9]), (61, [], [])], .publish [(62, [1], [0])]])
+  (Klev.run_inv_abs wL wL_inv _).1 [4]
+
+-- evaluated: all log files in V1 afterwards, same content
+example : (stepOp wL (.reopen [0] (some .v1) true oo)).segs.map (·.ver) = [.v1, .v1, .v1, .v1] ∧
+    (abs (stepOp wL (.reopen [0] (some .v1) true oo))).live = (abs wL).live ∧
+    (abs (stepOp wL (.reopen [0] (some .v1) true oo))).next = 9 := by decide
+-- a mixed-version log (NewSegmentsVersion = V1, KeepRewriteVersion): the new segment is V1, the
+-- rewritten segment 2 keeps V2; lookups go across versions
+example :
+    let mixed := runOps wL [.reopen [] none false ⟨⟨false, ⟨true, true⟩, false, 60, Ver.v1, true⟩, false, false, false⟩,
+      .publish [(60, [9], [9]), (61, [], [])], .publish [(62, [1], [0])], .delete [4]]
+    mixed.segs.map (fun s => (s.base, s.ver, s.recs.map (·.off))) =
+      [(0, .v2, [0, 1]), (2, .v2, [2]), (5, .v2, [5, 6]), (8, .v2, [8, 9, 10]), (11, .v1, [11])] ∧
+    (mixed.getByKey [1]).2 = .ok ⟨11, 62, [1], [0]⟩ ∧
+    (mixed.consume 9 10).2 = .ok (11, [⟨9, 60, [9], [9]⟩, ⟨10, 61, [], []⟩]) := by decide
+
+end NonVacuity
 
 #print axioms Klev.C17.migrate_keeps_content
 #print axioms Klev.C17.rewrite_keeps_content
